@@ -62,7 +62,7 @@ def _design(ctx):
 
 
 LOCKSTEP = {"C02", "C04", "C05", "C41"}       # properties that also get the lock-step clauses of Interp.tla
-CMDLOCK = {"C06", "C10", "C11", "C13"}        # properties that also get the lock-step clauses of CmdMgr.tla
+CMDLOCK = {"C06", "C08", "C09", "C10", "C11", "C13"}        # properties that also get the lock-step clauses of CmdMgr.tla
 
 
 def _cmdlock(ctx):
